@@ -20,6 +20,7 @@ def check(chk, thorough=False):
     chk.run('C05.d', 'R-LINEAR', 'data budget = mtu - N + 1 - h with N measured on the filled, empty-payload fragment and h the head size of the total payload length', lambda ob: c05d(tree, ob), floor=3)
     chk.run('C05.j', 'R-FLOW', 'every fragment handed to a convergence-layer adaptor reaches the CL or waits for its session: none is dropped on the way (= C11.h)', lambda ob: __import__('sa.props.c11', fromlist=['c11h']).c11h(tree, ob), floor=6)
     chk.run('C05.k', 'R-FLOW', 'the route whose MTU sizes the fragments is the route they are sent on: one routing decision per bundle, the first matching transmit route in table order, kept in ctr.route', lambda ob: c05k(tree, ob), floor=3)
+    chk.run('C05.l', 'R-GUARD', 'fragments pass the TX chain again: no step other than the cutter edits the blocks of a fragment, and only the cutter may take a transmission over', lambda ob: __import__('sa.props.common', fromlist=['tx_steps_discipline']).tx_steps_discipline(tree, ob), floor=4)
     chk.run('C05.e', 'R-SCHEMA', 'security TX steps run before fragment creation; fragments re-enter through Agent.send_bundle', lambda ob: c05e(tree, ob), floor=3)
     chk.run('C05.f', 'R-NOPATH', 'when fragmentation is impossible nothing altered is transmitted: no mutation of the original before a raise; a failed TX step never reaches the sender', lambda ob: c05f(tree, ob), floor=2)
     chk.run('C05.h', 'R-ORDER', 'sizes seen by the TX steps include the CRC fields: the bundle is filled before the TX chain runs, and block filling always reaches the CRC placeholder step', lambda ob: c05h(tree, ob), floor=3)
@@ -32,7 +33,30 @@ def _gate(fv):
     return conds
 
 
+def _flags_survive(tree, ob):
+    ''' the do-not-fragment mark the decision reads must be the one the bundle came with.  The one place on the way that
+    rewrites the flags of a bundle is Bundle._update_from_admin() (run at every build of a bundle that carries an
+    administrative record): it may only add the admin flag to what is there. '''
+    BN = 'bp/encoding/bundle.py'
+    fv = FuncView(tree, BN, 'Bundle._update_from_admin')
+    sets = [c for c in calls_in(fv.func) if isinstance(c.func, ast.Attribute) and c.func.attr == 'setfieldval' and c.args and const_str(c.args[0]) == 'bundle_flags']
+    sets += [n for n in walk_local(fv.func) if isinstance(n, (ast.Assign, ast.AugAssign)) and any(src(t).endswith('.bundle_flags') for t in (n.targets if isinstance(n, ast.Assign) else [n.target]))]
+    ob.require(sets, 'flag update in _update_from_admin')
+    for st in sets:
+        if isinstance(st, ast.Call):
+            val = fv.value_at(st.args[1], st, depth=4)
+            ok = src(val) in ("self.primary.getfieldval('bundle_flags') | PrimaryBlock.Flag.PAYLOAD_ADMIN", "PrimaryBlock.Flag.PAYLOAD_ADMIN | self.primary.getfieldval('bundle_flags')")
+        else:
+            ok = isinstance(st, ast.AugAssign) and isinstance(st.op, ast.BitOr) and src(st.value) == 'PrimaryBlock.Flag.PAYLOAD_ADMIN'
+        if ok:
+            ob.site(BN, st, 'admin bundles: the admin flag is added, every other flag stays')
+        else:
+            ob.violate(BN, fv.qual, src(st)[:90], 'the flags of a bundle that carries an administrative record are rewritten (masked to a list, replaced) when it is built: a do-not-fragment mark is lost on the '
+                       'way, so the bundle is fragmented although it was marked', st)
+
+
 def c05a(tree, ob):
+    _flags_survive(tree, ob)
     fv = FuncView(tree, FRAG, Q)
     defs = norm.local_assigns(fv.func, 'should_fragment')
     d = one(defs, 'should_fragment definition', ob)
